@@ -163,6 +163,17 @@ def run(cx, out):
             chk = [e for e in events(ne) if e[0] == 'CHECK']
             sums = [e for e in chk if 'checked_add(' in sym.vstr(e[2])]
             if not sums:
+                # the same propagation spelled as a match: `match old.checked_add(n) { Some(c) => c, None => return Err(..) }`
+                for x in sym.walk(ne):
+                    if x[0] == 'alt' and not (isinstance(x[1], tuple) and x[1] and x[1][0] == 'if') and 'checked_add(' in sym.vstr(x[1]):
+                        arms_ = {(d[1] if isinstance(d, tuple) and len(d) > 1 else str(d)): a for d, a in x[2]}
+                        none_arm = arms_.get('None')
+                        some_arm = arms_.get('Some')
+                        if none_arm is not None and some_arm is not None:
+                            ne_ev = events(none_arm)
+                            if ne_ev and ne_ev[-1][0] == 'ERR' and not (events(some_arm) and events(some_arm)[-1][0] == 'ERR'):
+                                sums.append(['CHECK', 'match', x[1]])
+            if not sums:
                 why2.append('new count is not computed with checked_add(..).ok_or(..)?')
             else:
                 sv = sym.vstr(sums[0][2])
